@@ -131,7 +131,7 @@ def ws_setup(d, cfg):
     for v in ('PHOTO_CALIB', 'PHOTO_RESOLVE'):
         os.environ.pop(v, None)
     if cfg['calib']:
-        os.environ['PHOTO_CALIB'] = '/calib/dir'
+        os.environ['PHOTO_CALIB'] = '' if cfg['calib'] == 'empty' else '/calib/dir'
     if cfg['resolve']:
         os.environ['PHOTO_RESOLVE'] = rd
 
@@ -155,6 +155,9 @@ def ws_configs():
                     'rescore_exists': False, 'score_raises': True})
     out.append({'ep': 'window_score', 'calib': True, 'resolve': True, 'rescore': True, 'flist': 'ok',
                 'rescore_exists': True, 'score_raises': False})
+    for rescore in (False, True):      # variable set but empty on entry
+        out.append({'ep': 'window_score', 'calib': 'empty', 'resolve': True, 'rescore': rescore, 'flist': 'ok',
+                    'rescore_exists': False, 'score_raises': False})
     return out
 
 
@@ -223,9 +226,9 @@ def ti_setup(d, cfg, keep_files=False):
     for v in ('RUN2D', 'RUN1D'):
         os.environ.pop(v, None)
     if cfg['run2d']:
-        os.environ['RUN2D'] = 'orig2d'
+        os.environ['RUN2D'] = '' if cfg['run2d'] == 'empty' else 'orig2d'
     if cfg['run1d']:
-        os.environ['RUN1D'] = 'orig1d'
+        os.environ['RUN1D'] = '' if cfg['run1d'] == 'empty' else 'orig1d'
     nat = cfg.get('natural')
 
     def readspec(*a, **k):
@@ -312,6 +315,15 @@ def ti_configs(tier):
         for nat in ('readspec', 'missingobj', 'preprocess', 'solver', 'plot'):
             out.append({'ep': 'template_input', 'run2d': run2d, 'run1d': run1d, 'object': 'gal', 'method': 'hmf' if nat == 'solver' else 'pca',
                         'dump': 'absent', 'flux': False, 'defect': 'none', 'natural': nat})
+    # variables set but EMPTY on entry (a third initial state besides set / unset)
+    for run2d, run1d in (('empty', 'empty'), ('empty', False), (True, 'empty'), (False, 'empty'), ('empty', True)) if T else (('empty', 'empty'), (True, 'empty')):
+        for method, defect in (('pca', 'none'), ('hmf', 'missinghmf')):
+            out.append({'ep': 'template_input', 'run2d': run2d, 'run1d': run1d, 'object': 'gal', 'method': method, 'dump': 'absent',
+                        'flux': False, 'defect': defect})
+    # history: a bare template_metadata() call (which by design leaves RUN2D/RUN1D set) precedes template_input()
+    for run2d, run1d in ((True, True), (False, False), (True, False)) if T else ((True, True), (False, False)):
+        out.append({'ep': 'template_input', 'run2d': run2d, 'run1d': run1d, 'object': 'gal', 'method': 'pca', 'dump': 'absent',
+                    'flux': False, 'defect': 'none', 'bare_metadata_first': True})
     # two-call histories (same parameter file, environment changed in between)
     states = [(True, True), (False, False), (True, False), (False, True)]
     for a in states:
@@ -363,6 +375,15 @@ def one_run(cfg, k, excname, d):
             except Exception:
                 pass
             fn = ti_setup(d, cfg, keep_files=True)
+        elif cfg.get('bare_metadata_first'):
+            # history: template_metadata() alone (documented to leave RUN2D/RUN1D set), then the caller rearranges the
+            # environment to this configuration's initial state, then template_input()
+            ti_setup(d, dict(cfg, run2d=not cfg['run2d'], run1d=not cfg['run1d']))
+            try:
+                S.template_metadata(os.path.join(d, 'work', 'input.par'))
+            except Exception:
+                pass
+            fn = ti_setup(d, cfg, keep_files=True)
         else:
             fn = ws_setup(d, cfg) if cfg['ep'] == 'window_score' else ti_setup(d, cfg)
         env0 = dict(os.environ)
@@ -411,9 +432,12 @@ def run_task(task):
             for k in range(1, n + 1):
                 res, inj, bad = one_run(cfg, k, excname, d)
                 if inj.fired is None:
-                    raise RuntimeError('fault point %d of %d not reached for %r' % (k, n, cfg))
-                nontrivial = res != 'returned' and inj.dirty
-                acc.case((ckey, k, excname), nontrivial, 'k:%s:%s:%s' % (cfg['ep'], 'dirty' if inj.dirty else 'clean', 'raised' if res != 'returned' else 'swallowed'))
+                    # the run made fewer calls than the fault-free run (control flow depends on earlier runs in this
+                    # process): no fault was injected; the environment clause still applies to this run
+                    acc.case((ckey, k, excname), False, 'k:%s:fault-point-not-reached' % cfg['ep'])
+                else:
+                    nontrivial = res != 'returned' and inj.dirty
+                    acc.case((ckey, k, excname), nontrivial, 'k:%s:%s:%s' % (cfg['ep'], 'dirty' if inj.dirty else 'clean', 'raised' if res != 'returned' else 'swallowed'))
                 for sig, msg in bad:
                     acc.violation(sig, {'cfg': cfg, 'k': k, 'exc': excname}, msg)
     finally:
